@@ -165,4 +165,8 @@ def recursive_programs():
                 'fn nested() -> int { try { try { throw("inner"); } catch e { throw("outer"); } 0 } catch f { 3 } }\n'
                 'fn main() { let sum = 100; let k = 5; println(find([1, 2, 3], 2)); println("sum", sum, k); println(scan("axb")); println("sum", sum, k); println(nested()); println("sum", sum, k); '
                 'println(find([1], 7), scan("ab")); println("sum", sum, k); }\n'))
+    # an exit written in the CONDITION of a `while` belongs to the loop that encloses the `while`
+    out.append(("exit-in-while-condition", 'fn main() { let out = ""; let n = 0; for i in 0..4 { let j = 0; while { if j == 1 && i == 2 { break; } j < 2 } { out += "b"; j += 1; } out += "o"; n += 1; } println(out, n);\n'
+                '  let k = 0; let seen = ""; loop { k += 1; if k > 4 { break; } let m = 0; while { if k == 2 && m == 0 { seen += "c"; continue; } m < 1 } { m += 1; seen += "w"; } seen += "e"; } println(k, seen);\n'
+                '  for q in 0..2 { try { let t = 0; while { if t == 1 { continue; } t < 3 } { t += 1; } println("not reached", q); } catch e { println("never"); } } try { throw("final"); } catch e { println("caught", e.message); } }\n'))
     return out
